@@ -21,7 +21,7 @@ def main(tier, replay):
         "IterativeReconstruction::get_subset_num (rand() scripted) on generated geometries: views 1..24 + seeded sample up to 96 (thorough: all 1..96), "
         "all 8 requested symmetry-flag combinations, TOF and non-TOF, every (view,segment): basic/related/count; subsets n (all n<=6, divisors, sample; thorough: all n) "
         "x every subset; balanced flag before set_up (non-TOF, explicit max segment) and after the objective function's set_up (`balancedsu`: default "
-        "max_segment_num_to_process=-1, explicit and too large values, TOF and non-TOF, with/without subset sensitivities); schedules of get_subset_num (`sched`). "
+        "max_segment_num_to_process=-1, explicit and too large values, TOF and non-TOF, with/without subset sensitivities; every second object is used again with data of another number of segments after no setter call / the setter with the value in force / with another value); schedules of get_subset_num (`sched`). "
         "`recon`: the real OSMAPOSLReconstruction set_up + reconstruct on small PET data (matrix projectors, 2..16 views, 1..2 rings, TOF in 1/5 of the cases) with random "
         "num_subsets / start_subset_num / start_subiteration_num / num_subiterations / randomise flag (rand() scripted) and malformed parameters; the subset number of "
         "every sub-iteration is recorded by a wrapping objective function (the real PoissonLogLikelihoodWithLinearModelForMeanAndProjData, balance test real or forced) "
